@@ -2,7 +2,7 @@
 use crate::rng::Rng;
 
 pub const KINDS: &[&str] = &[
-    "zeros", "runs", "text4", "random", "highbyte", "sparse3", "words", "repeat_far", "xx", "ramp", "skew", "wrap_runs", "fat_boundary", "lazy_cut", "far_trigram", "deep_tree",
+    "zeros", "runs", "text4", "random", "highbyte", "sparse3", "words", "repeat_far", "xx", "ramp", "skew", "wrap_runs", "fat_boundary", "lazy_cut", "far_trigram", "deep_tree", "clen_runs",
 ];
 
 pub fn gen(rng: &mut Rng, kind: &str, len: usize) -> Vec<u8> {
@@ -92,6 +92,21 @@ pub fn gen(rng: &mut Rng, kind: &str, len: usize) -> Vec<u8> {
                 for i in 3..8 { if p + d + i < len { v[p + d + i] = v[p + i].wrapping_add(0x11) & !15 | ((nib + 1) & 15); } }
                 p += rng.range(200, 9000);
             }
+        }
+        "clen_runs" => {
+            // a power-of-two alphabet with equal counts (equal code lengths) in two blocks of consecutive
+            // byte values separated by an unused range whose length sits at a boundary of the code-length
+            // run encodings (3, 10/11, 138 and multiples): zero runs of exactly that length followed by
+            // several equal lengths
+            let k = *rng.pick(&[8usize, 16, 16, 32]);
+            let gap = *rng.pick(&[138usize, 138, 138, 137, 139, 11, 10, 3, 148, 149]);
+            let first = rng.range(3, k - 3);
+            let start = rng.range(0, 256 - k - gap);
+            let mut alpha: Vec<u8> = (0..first).map(|i| (start + i) as u8).collect();
+            alpha.extend((0..k - first).map(|i| (start + first + gap + i) as u8));
+            let m = rng.range(6, 40);
+            for _ in 0..m { let mut a = alpha.clone(); for i in (1..a.len()).rev() { let j = rng.below(i + 1); a.swap(i, j); } v.extend_from_slice(&a); }
+            return v;
         }
         "deep_tree" => {
             // exact Fibonacci frequencies over 17..32 symbols, shuffled: the unrestricted Huffman tree is
